@@ -31,6 +31,7 @@ Stable(mac, s) == \E j \in DOMAIN mac : mac[j].k = "enter" /\ mac[j].a = s
                                          /\ \A m \in (j+1)..Len(mac) : ~(mac[m].k = "exit" /\ mac[m].a = s)
 ExpectedStarts(sc, mac) == LET ks == SelectSeq([k \in DOMAIN sc.inv |-> k], LAMBDA k : Stable(mac, sc.inv[k].state))
                            IN [j \in DOMAIN ks |-> sc.inv[ks[j]].child]
+NonOpt(sc, names) == SelectSeq(names, LAMBDA c : ~\E k \in DOMAIN sc.inv : sc.inv[k].child = c /\ sc.inv[k].opt)
 ObservedStarts(mac) == LET ss == SelectSeq(mac, LAMBDA r : r.k = "start") IN [j \in DOMAIN ss |-> ss[j].a]
 
 Step(sc, acc, r) ==
@@ -38,7 +39,11 @@ Step(sc, acc, r) ==
   ELSE LET a1 == IF acc.owed > 0 /\ r.k # "cancel" THEN [acc EXCEPT !.bad = "no-cancel-on-exit"] ELSE acc IN
   IF a1.bad # "" THEN a1
   ELSE CASE r.k = "idle" ->
-              IF ObservedStarts(a1.mac) # ExpectedStarts(sc, a1.mac) THEN [a1 EXCEPT !.bad = "invoke-starts"]
+              \* an invoke whose arguments fail to evaluate (opt) may be started or not - but never twice
+              IF NonOpt(sc, ObservedStarts(a1.mac)) # NonOpt(sc, ExpectedStarts(sc, a1.mac)) THEN [a1 EXCEPT !.bad = "invoke-starts"]
+              ELSE IF \E k \in DOMAIN sc.inv : sc.inv[k].opt /\
+                        Len(SelectSeq(ObservedStarts(a1.mac), LAMBDA c : c = sc.inv[k].child)) > (IF Stable(a1.mac, sc.inv[k].state) THEN 1 ELSE 0)
+                   THEN [a1 EXCEPT !.bad = "invoke-starts"]
               ELSE [a1 EXCEPT !.mac = <<>>]
          [] r.k = "start" ->
               LET ks == { k \in DOMAIN sc.inv : sc.inv[k].child = r.a } IN
